@@ -23,10 +23,14 @@ def convert_timestamp_to_unix_nano(iso_timestamp: str) -> int:
     dt = datetime.fromisoformat(iso_timestamp.rstrip("Z")).replace(
         tzinfo=timezone.utc
     )
-    # Convert the datetime object to a Unix timestamp in seconds
-    unix_timestamp = dt.timestamp()
-    # Convert the Unix timestamp to nanoseconds
-    unix_nano = int(unix_timestamp * 1e9 + dt.microsecond * 1e3)
+    # Convert the datetime object to nanoseconds since the Unix epoch using
+    # integer arithmetic (the microseconds are counted exactly once and no
+    # precision is lost to floating point)
+    delta = dt - datetime(1970, 1, 1, tzinfo=timezone.utc)
+    unix_nano = (
+        (delta.days * 86400 + delta.seconds) * 10**9
+        + delta.microseconds * 10**3
+    )
     return unix_nano
 
 
